@@ -180,6 +180,11 @@ def main(argv=None):
         m = merge(docs)
     finally:
         shutil.rmtree(workdir, ignore_errors=True)
+        for s_ in (locals().get("shards") or []):
+            if isinstance(s_, dict) and s_.get("_scratch"):
+                from vf import scenario  # noqa: PLC0415
+
+                scenario.remove_scratch(s_["_scratch"])
     extra = {}
     if hasattr(mod, "finish"):
         extra = mod.finish(m, tier, seed) or {}
